@@ -12,13 +12,13 @@ def render(tokens, rng):
     n = 0
     for i, t in enumerate(tokens):
         n += 1
-        txt = {"NAME": "n%d" % n, "STR": '"comment %d; (x)"' % n, "NUM": "12"}.get(t, t)
+        txt = {"NAME": "n%d" % n, "STR": ('"comment %d; (x)"' if n % 3 else '"g\u00e9ne \u540d\u524d\u3000%d, [y]"') % n, "NUM": "12"}.get(t, t)
         if i > 0:
             prev = tokens[i - 1]
             if t in DELIMS or prev in DELIMS:
-                out.append(rng.choice(["", " ", "\n", "\t "]))
+                out.append(rng.choice(["", " ", "\n", "\t ", "", " ", "\u00a0", "\u3000 "]))
             else:
-                out.append(rng.choice([" ", "\n", "  \t"]))
+                out.append(rng.choice([" ", "\n", "  \t", " ", "\n", "\u00a0", "\u2003\u3000", " \u00a0"]))   # multi-byte white space too
         out.append(txt)
     return "".join(out) + rng.choice(["", "\n", " "])
 
